@@ -228,6 +228,14 @@ def hazard_programs():
     out.append(("try-catch-base", TRY(THROW(P("exc4", K(1))), (0, E, T(K(3))), None)))
     out.append(("try-nomatch", TRY(TRY(THROW(P("exc4", K(1))), (1, E, T(K(3))), T(K(5))), (4, E, T(K(6))), None)))
     out.append(("throw-in-arg", TRY(VEC(T(K(1)), THROW(P("exc1", K(0))), T(K(2))), (1, E, K(9)), None)))
+    # a finally clause (or a handler) that is only a constant or a local: nothing is left of it after
+    # the optimizer's constant-statement elimination
+    out.append(("try-finally-constant", TRY(T(K(1)), None, K(None))))
+    out.append(("try-finally-constant2", LET(V, K(5), TRY(VEC(T(K(1)), L(V)), None, L(V)))))
+    out.append(("try-catch-finally-constant", TRY(THROW(P("exc1", T(K(1)))), (1, E, K(2)), K(3))))
+    out.append(("try-finally-constant-in-fn", INV(FN([V], TRY(T(L(V)), None, K(True))), K(4))))
+    out.append(("try-finally-constant-in-loop", LOOP([(I, K(0))], IF(P("lt", L(I), K(2)),
+        RECUR(TRY(P("inc", L(I)), None, K(0))), L(I)))))
     out.append(("recur-in-try", LOOP([(I, K(0))], TRY(IF(P("lt", L(I), K(2)), RECUR(P("inc", L(I))), L(I)), None, T(L(I))))))
     out.append(("finally-in-loop", LOOP([(I, K(0)), (ACC, VEC())], IF(P("lt", L(I), K(2)),
         RECUR(P("inc", L(I)), TRY(P("conj", L(ACC), T(L(I))), None, T(K(9)))), L(ACC)))))
